@@ -12,7 +12,9 @@ import (
 	epb "github.com/google/gce-tcb-verifier/proto/endorsement"
 	"github.com/google/gce-tcb-verifier/timeproto"
 	"github.com/google/gce-tcb-verifier/verify"
+	cpb "github.com/google/go-sev-guest/proto/check"
 	spb "github.com/google/go-sev-guest/proto/sevsnp"
+	tcpb "github.com/google/go-tdx-guest/proto/checkconfig"
 	"google.golang.org/protobuf/proto"
 
 	"verifharness/core"
@@ -244,7 +246,7 @@ func run(c *core.Ctx) {
 				// verify.SNP directly
 				var err error
 				if g.SevSnp != nil {
-					c.Guard(i, "verify.SNP", gname, core.Budget{}, func() {
+					c.Guard(i, "verify.SNP", gname, core.Budget{PanicNotJudged: true}, func() {
 						err = verify.SNP(g, &verify.SNPOptions{Measurement: m.b, ExpectedLaunchVMSAs: req})
 					})
 					// nil measurement with request 0 checks nothing and is not a validation of a report
@@ -252,25 +254,34 @@ func run(c *core.Ctx) {
 						judge("verify.SNP", reqKind, m.kind, err == nil, okMember || (req == 0 && len(m.b) == 0 && m.b == nil), det)
 					}
 				}
-				c.Guard(i, "verify.EndorsementProto+SNP", gname, core.Budget{}, func() {
+				c.Guard(i, "verify.EndorsementProto+SNP", gname, core.Budget{PanicNotJudged: true}, func() {
 					err = verify.EndorsementProto(t.e, &verify.Options{RootsOfTrust: roots, Now: now, SNP: &verify.SNPOptions{Measurement: m.b, ExpectedLaunchVMSAs: req}})
 				})
 				judge("verify.EndorsementProto+SNP", reqKind, m.kind, err == nil, okMember, det)
-				c.Guard(i, "SNPValidateFunc", gname, core.Budget{}, func() {
+				c.Guard(i, "SNPValidateFunc", gname, core.Budget{PanicNotJudged: true}, func() {
 					f := verify.SNPValidateFunc(&verify.Options{RootsOfTrust: roots, Now: now, SNP: &verify.SNPOptions{ExpectedLaunchVMSAs: req}})
 					err = f(&spb.Attestation{Report: &spb.Report{Measurement: m.b}}, t.raw)
 				})
 				judge("SNPValidateFunc", reqKind, m.kind, err == nil, ok48, det)
-				c.Guard(i, "SevValidate", gname, core.Budget{}, func() {
+				c.Guard(i, "SevValidate", gname, core.Budget{PanicNotJudged: true}, func() {
 					err = gcetcbendorsement.SevValidate(ctx, gen.SnpAttestation(m.b, vcek), &gcetcbendorsement.SevValidateOptions{Endorsement: t.e, RootsOfTrust: roots, Now: now, ExpectedLaunchVmsas: req})
 				})
 				judge("SevValidate", reqKind, m.kind, err == nil, ok48, det)
+			}
+			if g.SevSnp != nil && len(listed) > 0 {
+				foreign := rbytes(r, 48)
+				var err error
+				c.Guard(i, "SevValidate+base+overwrite", gname, core.Budget{PanicNotJudged: true}, func() {
+					err = gcetcbendorsement.SevValidate(ctx, gen.SnpAttestation(foreign, vcek), &gcetcbendorsement.SevValidateOptions{Endorsement: t.e, RootsOfTrust: roots, Now: now, ExpectedLaunchVmsas: req,
+						BasePolicy: &cpb.Policy{Measurement: foreign, Policy: gen.ProdPolicy(), MinimumVersion: "0.0"}, Overwrite: true})
+				})
+				judge("SevValidate+base+overwrite", reqKind, "only-in-base-policy", err == nil, member(listed, foreign), fmt.Sprintf("request vmsas=%d report measurement %x is only in the caller's base policy", req, foreign))
 			}
 			// derived SNP policy must carry the measurement constraint for the named count
 			if g.SevSnp != nil && req != 0 {
 				var pol interface{ GetMeasurement() []byte }
 				var err error
-				c.Guard(i, "SevPolicy", gname, core.Budget{}, func() {
+				c.Guard(i, "SevPolicy", gname, core.Budget{PanicNotJudged: true}, func() {
 					p, e := gcetcbendorsement.SevPolicy(ctx, t.e, &gcetcbendorsement.SevPolicyOptions{LaunchVmsas: req})
 					pol, err = p, e
 				})
@@ -294,7 +305,7 @@ func run(c *core.Ctx) {
 		}{{"nil", nil}, {"equal", g.Digest}, {"one-bit-off", func() []byte { x := append([]byte(nil), g.Digest...); x[r.IntN(48)] ^= 1 << r.IntN(8); return x }()},
 			{"prefix", g.Digest[:47]}, {"empty", []byte{}}} {
 			var err error
-			c.Guard(i, "verify.Endorsement+digest", gname, core.Budget{}, func() {
+			c.Guard(i, "verify.Endorsement+digest", gname, core.Budget{PanicNotJudged: true}, func() {
 				err = verify.Endorsement(t.raw, &verify.Options{RootsOfTrust: roots, Now: now, ExpectedUefiSha384: d.b})
 			})
 			allowed := len(d.b) == 0 || bytes.Equal(d.b, g.Digest)
@@ -307,6 +318,36 @@ func run(c *core.Ctx) {
 				rejects["verify.Endorsement+digest"]++
 			}
 			c.Cell("digest|%s|accepted=%v", d.kind, err == nil)
+			// the same clause through the validator closure (endorsement as argument and in the options)
+			if g.SevSnp != nil && len(allSNP) > 0 {
+				var m48 []byte
+				for _, v := range allSNP {
+					if len(v) == 48 {
+						m48 = v
+					}
+				}
+				if m48 != nil {
+					for _, src := range []string{"arg", "options"} {
+						o := &verify.Options{RootsOfTrust: roots, Now: now, ExpectedUefiSha384: d.b}
+						var arg []byte = t.raw
+						if src == "options" {
+							o.Endorsement, arg = t.e, nil
+						}
+						c.Guard(i, "SNPValidateFunc+digest/"+src, gname, core.Budget{PanicNotJudged: true}, func() {
+							err = verify.SNPValidateFunc(o)(&spb.Attestation{Report: &spb.Report{Measurement: m48}}, arg)
+						})
+						if err == nil && !allowed {
+							c.Oracle(i, "SNPValidateFunc+digest/"+src, "accepted-wrong-digest", gname, "validator closure accepted although the expected digest (%s) %x differs from the endorsed %x", d.kind, d.b, g.Digest)
+						}
+						if err == nil {
+							accepts["SNPValidateFunc+digest"]++
+						} else if !allowed {
+							rejects["SNPValidateFunc+digest"]++
+						}
+						c.Cell("digest-closure|%s|%s|accepted=%v", src, d.kind, err == nil)
+					}
+				}
+			}
 		}
 		// TDX
 		if g.Tdx != nil {
@@ -330,7 +371,7 @@ func run(c *core.Ctx) {
 				// policy
 				var ptd [][]byte
 				var err error
-				c.Guard(i, "TdxPolicy", gname, core.Budget{}, func() {
+				c.Guard(i, "TdxPolicy", gname, core.Budget{PanicNotJudged: true}, func() {
 					p, e := gcetcbendorsement.TdxPolicy(ctx, t.e, &gcetcbendorsement.TdxPolicyOptions{RAMGiB: ram})
 					err = e
 					if e == nil {
@@ -354,11 +395,35 @@ func run(c *core.Ctx) {
 					}
 				}
 				c.Cell("TdxPolicy|%s|ok=%v", ramKind, err == nil)
+				// a caller-supplied base policy that already allows some other MRTD, with overwrite permission:
+				// the endorsement's list must still be the only one that validates
+				foreign := rbytes(r, 48)
+				basePol := &tcpb.Policy{TdQuoteBodyPolicy: &tcpb.TDQuoteBodyPolicy{AnyMrTd: [][]byte{foreign}}}
+				var ptd2 [][]byte
+				c.Guard(i, "TdxPolicy+base+overwrite", gname, core.Budget{PanicNotJudged: true}, func() {
+					p, e := gcetcbendorsement.TdxPolicy(ctx, t.e, &gcetcbendorsement.TdxPolicyOptions{RAMGiB: ram, Base: basePol, Overwrite: true})
+					err = e
+					if e == nil {
+						ptd2 = p.GetTdQuoteBodyPolicy().GetAnyMrTd()
+					}
+				})
+				if err == nil {
+					for _, v := range ptd2 {
+						if !member(listed, v) {
+							c.Oracle(i, "TdxPolicy+base+overwrite", "policy-allows-unlisted-mrtd", gname, "TdxPolicy ram_gib=%d with a pre-populated base and overwrite allows %x which the endorsement does not list for that size", ram, v)
+						}
+					}
+					c.Cell("TdxPolicy+base+overwrite|%s|ok", ramKind)
+				}
+				c.Guard(i, "TdxValidate+base+overwrite", gname, core.Budget{PanicNotJudged: true}, func() {
+					err = gcetcbendorsement.TdxValidate(ctx, gen.TdxQuote(foreign), &gcetcbendorsement.TdxValidateOptions{Endorsement: t.e, RootsOfTrust: roots, Now: now, ExpectedRAMGiB: ram, BasePolicy: basePol, Overwrite: true})
+				})
+				judge("TdxValidate+base+overwrite", ramKind, "only-in-base-policy", err == nil, member(listed, foreign), fmt.Sprintf("request ram_gib=%d quote MRTD %x is only in the caller's base policy, endorsement lists %x", ram, foreign, listed))
 				for _, m := range measurements(r, listed, allT) {
 					if len(m.b) != 48 {
 						continue // a raw quote always carries 48 bytes
 					}
-					c.Guard(i, "TdxValidate", gname, core.Budget{}, func() {
+					c.Guard(i, "TdxValidate", gname, core.Budget{PanicNotJudged: true}, func() {
 						err = gcetcbendorsement.TdxValidate(ctx, gen.TdxQuote(m.b), &gcetcbendorsement.TdxValidateOptions{Endorsement: t.e, RootsOfTrust: roots, Now: now, ExpectedRAMGiB: ram})
 					})
 					judge("TdxValidate", ramKind, m.kind, err == nil, member(listed, m.b) && len(m.b) == 48,
